@@ -40,7 +40,9 @@ def cases(tier, seed):
         shape = [int(rng.integers(2, 65)), int(rng.integers(2, 65))]
         org = [0.0, 0.0] if i % 3 else [float(rng.uniform(-5, 5)), float(rng.uniform(-5, 5))]
         out.append({"id": "fftinv-r-%d" % i, "kind": "fftinv", "shape": shape, "layout": ["xy", "zxy", "zxy_illum", "xyz"][i % 4],
-                    "complex": bool(i % 2), "origin": org, "seed": [seed, "fr", i], "crop": bool(i % 3 == 0)})
+                    "complex": bool(i % 2), "origin": org, "seed": [seed, "fr", i], "crop": bool(i % 3 == 0),
+                    # pixel units: integer spacing, so the image's coordinates are integers (data_grid(arr, spacing=1))
+                    "int_spacing": [None, None, None, None, None, [1, 1], None, None, None, None, None, [2, 3]][i % 12]})
     npz = 400 if tier == "quick" else 8000
     for i in range(npz):
         small = rng.random() < 0.5
@@ -51,6 +53,11 @@ def cases(tier, seed):
         if i % 4 == 0:
             sp[1] = sp[0]
         ds = [float(lm * loguniform(rng, 1e-2, 1e4) * (1 if rng.random() < 0.6 else -1)) for _ in range(3)]
+        if i % 9 == 4:
+            # pixel units: integer spacing (integer coordinates), wavelength a few pixels
+            sp = [[1, 1], [2, 2], [1, 2]][(i // 9) % 3]
+            lam = float(nmed * rng.uniform(0.7, 4.0)); lm = lam / nmed
+            ds = [float(lm * loguniform(rng, 1e-2, 1e3) * (1 if rng.random() < 0.6 else -1)) for _ in range(3)]
         out.append({"id": "prop-%d" % i, "kind": "prop", "shape": shape, "spacing": sp, "wavelen": lam, "index": nmed,
                     "complex": bool(i % 2), "d": ds, "cfsp": [1, 3][i % 2], "gf": float(lm * rng.uniform(0.2, 3)),
                     "optics_in": ["attrs", "args", "mixed"][i % 3], "origin_shift": bool(i % 5 == 0),
@@ -102,7 +109,7 @@ def child_setup(shard):
         for c in ("x", "y"):
             if not np.array_equal(res[c].values, data[c].values):
                 out.append(("coords", "%s changed" % c))
-        nd = 1 if np.isscalar(d) else len(set(np.asarray(d, dtype=float).tolist()) | set()) if False else (1 if np.isscalar(d) else len(d))
+        nd = 1 if np.ndim(d) == 0 else len(d)
         if "z" not in res.dims:
             out.append(("z_dim", repr(res.dims)))
         if res.name != data.name:
@@ -179,6 +186,8 @@ def _run_fftinv(case):
     from holopy.core.process import fft, ifft
     rng = rng_for(*case["seed"])
     im = _image(case, rng, spacing=(float(rng.uniform(0.05, 2)), float(rng.uniform(0.05, 2))))
+    if case.get("int_spacing"):
+        im = _image(dict(case, origin=[0.0, 0.0]), rng, spacing=tuple(int(v) for v in case["int_spacing"]))
     if case.get("crop") and im.sizes["x"] > 3 and im.sizes["y"] > 3:
         im = im.isel(x=slice(1, None), y=slice(0, -1))
     f = fft(im)
@@ -257,6 +266,14 @@ def _run_prop(case):
     z0f = P(im, 0.0)
     flags["zero_float_identity"] = bool(_same_image(z0f, im, kw_arg))
     # additivity
+    if all(isinstance(v, int) for v in case["spacing"]) and not case["origin_shift"]:
+        # the same image with its integer pixel coordinates written as floats is the same image
+        flags["integer_coordinates"] = bool(im.x.dtype.kind in "iu" and im.y.dtype.kind in "iu")
+        imf = im.assign_coords(x=im.x.values.astype(float), y=im.y.values.astype(float))
+        imf.attrs = dict(im.attrs)
+        rf = P(imf, d1)
+        resid["integer_vs_float_coordinates"] = relmax(r1.values.reshape(-1), rf.transpose(*r1.dims).values.reshape(-1))
+        flags["integer_vs_float_coordinates_axes"] = bool(np.array_equal(r1.x.values, rf.x.values) and np.array_equal(r1.y.values, rf.y.values))
     r12 = P(r1, d2)
     rsum = P(im, d1 + d2)
     resid["additive"] = relmax(r12.values.reshape(-1), rsum.transpose(*r12.dims).values.reshape(-1))
@@ -376,7 +393,7 @@ def judge(case, obs):
         return out
     ph = max(1.0, obs.get("phase", 1.0))
     tol = 1e-12 + 2e-15 * ph
-    for k in ("additive", "inverse", "linear", "stack", "cfsp", "gradient", "medium_rescaling"):
+    for k in ("additive", "inverse", "linear", "stack", "cfsp", "gradient", "medium_rescaling", "integer_vs_float_coordinates"):
         for kk, v in r.items():
             if kk.split("@")[0] == k and not v <= tol * (20 if k == "gradient" else 1):
                 out.append({"mech": "prop.%s" % k, "detail": "%s=%.3e > %.2e (phase %.2e); %s" % (kk, v, tol, ph, desc)})
